@@ -130,3 +130,34 @@ int f(int a) { return a + (3 * 4 - 2) + (100 / 7) + (100 % 7) + (1 << 4) + (256 
 P("negative_consts", "f", """
 int f(int a) { return a * -3 + (-7 / 2) + (-7 % 2) + (a & -8); }
 """)
+
+# --- added after seeded changes C02/A,B and C03/A,B were missed by the first corpus -------------
+P("tail_swap_gcd", "f", """
+int f(int a, int b) { if (b == 0) return a; return f(b, a % b); }
+""")
+P("tail_pass_through", "f", """
+int f(int n, int k) { if (n <= 0) return k; return f(n - k, k); }
+""")
+P("tail_rotate3", "f", """
+int f(int n, int cur, int nxt) { if (n <= 0) return cur; return f(n - 1, nxt, cur + nxt); }
+""")
+P("store_load_alias_store", "f", """
+int slot[2];
+int f(int k, int a) { int *p = &slot[0]; int *q = p + k; *p = a; int t = *q; *p = a + 1; return t + slot[0]; }
+""")
+P("store_narrowload_store", "f", """
+int slot;
+int f(int a) { slot = a; unsigned char c = *(unsigned char *)&slot; slot = a + 1; return c + slot; }
+""")
+P("store_call_store", "f", """
+int slot;
+int peek(void) { return slot; }
+int f(int a) { slot = a; int t = peek(); slot = a + 1; return t + slot; }
+""")
+P("empty_branches", "f", """
+int g;
+int f(int a, int c) { if (a) { if (c) { } else { } int t = a; t = t + 1; g = t; } g = g + 2; return g; }
+""")
+P("empty_else_chain", "f", """
+int f(int a, int b) { int r = a; if (a > 0) { if (b > 0) { } } else { if (b < 0) { } else { } r = b; } return r; }
+""")
